@@ -1795,6 +1795,8 @@ def register(I):
         return len(deref_all(I, args[0], st).entries)
 
     # ----------------------------------------------------------------- process-global state (only C15 cares)
+    ATOMIC_TYPES = ("AtomicU32", "AtomicU64", "AtomicUsize", "AtomicBool", "AtomicI32", "AtomicI64", "Atomic")
+
     def atomic(name, f):
         def h(I, st, args, info):
             r = args[0]
@@ -1806,14 +1808,35 @@ def register(I):
             I.write_cell(r.key, r.path, Adt("Atomic", None, [new]), st)
             return ret
         h.__name__ = "atomic_" + name
-        for ty in ("AtomicU32", "AtomicU64", "AtomicUsize", "AtomicBool", "AtomicI32", "AtomicI64"):
+        for ty in ATOMIC_TYPES:
             R["%s::%s" % (ty, name)] = h
     atomic("fetch_add", lambda v, a: ((v + a[1]) if not is_sym(v) else v + a[1], v))
     atomic("fetch_sub", lambda v, a: (v - a[1], v))
     atomic("load", lambda v, a: (v, v))
     atomic("store", lambda v, a: (a[1], ()))
     atomic("swap", lambda v, a: (a[1], v))
-    for ty in ("AtomicU32", "AtomicU64", "AtomicUsize", "AtomicBool", "AtomicI32", "AtomicI64"):
+
+    def _bool_op(op):
+        def f(v, a):
+            x, y = v, a[1]
+            if isinstance(x, bool) and isinstance(y, bool):
+                return ((x or y) if op == "or" else (x and y) if op == "and" else (x != y)), v
+            if isinstance(x, int) and isinstance(y, int):
+                return ((x | y) if op == "or" else (x & y) if op == "and" else (x ^ y)), v
+            return (b_or(x, y) if op == "or" else b_and(x, y) if op == "and" else z3.Xor(x, y)), v
+        return f
+    atomic("fetch_or", _bool_op("or"))
+    atomic("fetch_and", _bool_op("and"))
+    atomic("fetch_xor", _bool_op("xor"))
+
+    def _cmpxchg(v, a):
+        # compare_exchange(current, new, ..): Ok(previous) and stored when equal, Err(previous) otherwise (concrete values only)
+        if is_sym(v) or is_sym(a[1]):
+            raise Unsupported("compare_exchange on a symbolic atomic")
+        return (a[2], res_ok(v)) if v == a[1] else (v, res_err(v))
+    atomic("compare_exchange", _cmpxchg)
+    atomic("compare_exchange_weak", _cmpxchg)
+    for ty in ATOMIC_TYPES:
         R["%s::new" % ty] = (lambda I, st, args, info: Adt("Atomic", None, [args[0]]))
 
     # thread_local!: one cell per key and (single) thread, lazily initialised by the key's init function
@@ -2083,6 +2106,17 @@ def register(I):
     for ty_ in ("u8", "u16", "u32", "u64", "usize", "i32", "i64"):
         for which in ("trailing_zeros", "leading_zeros", "count_ones"):
             R["<impl %s>::%s" % (ty_, which)] = bit_scan(which)
+
+    def is_power_of_two(I, st, args, info):
+        ty, w = int_ty(info)
+        def f(x):
+            if isinstance(x, int):
+                x &= (1 << w) - 1
+                return x != 0 and (x & (x - 1)) == 0
+            return z3.And(x != 0, (x & (x - 1)) == 0)
+        return umap(f, deref_all(I, args[0], st))
+    for ty_ in ("u8", "u16", "u32", "u64", "usize"):
+        R["<impl %s>::is_power_of_two" % ty_] = is_power_of_two
 
     def wrapping(opname):
         def h(I, st, args, info):
